@@ -160,6 +160,14 @@ def gen(ctx, l404, l400, rng=None):
     lines.append("h2 %s q W:3:4:2147418111 S:0:0:4=65536:0 q P:0:0:8 q" % two)
     lines.append("h2 %s %s q W:3:4:2147418112 W:5:4:100 S:0:0:4=65536,5=16384:0 q" % (two, H(5, 404, l404)))
     lines.append("h2 %s q S:0:0:4=2147483647:0 q P:0:0:8 q" % two)
+    # DATA for a stream the server has answered and forgotten (not a data sink: graceful GOAWAY) while another
+    # stream waits for WINDOW_UPDATE: a second such frame in the same read, or one after an earlier GOAWAY,
+    # must not strand the frames behind it (progress)
+    act = H(1, 200, 10) + " " + H(3, 200, 100000)
+    lines.append("h2 %s q D:1:3:-:0 D:1:3:-:0 W:3:4:100000 W:0:4:100000 q P:0:0:8 q" % act)
+    lines.append("h2 %s q D:1:3:-:0 D:1:100:-:1 D:1:5:2:0 P:0:0:8 W:3:4:100000 W:0:4:100000 q P:0:0:8 q" % act)
+    lines.append("h2 %s q D:1:3:-:0 q D:1:5:-:0 W:3:4:100000 W:0:4:100000 q P:0:0:8 q" % act)
+    lines.append("h2 %s q G:0:8:0 q D:1:3:-:0 W:3:4:100000 W:0:4:100000 P:0:0:8 q P:0:0:8 q" % act)
     return lines
 
 
@@ -894,6 +902,14 @@ def run_scenario(port, line, expect, seed):
                 # remaining steps see nothing
                 for t2 in toks[toks.index("q") + 1:]:
                     pass
+        # liveness: a connection the server keeps open must still read and answer (progress clause)
+        stalled = False
+        if not c.closed and not any(f[0] == 7 and int.from_bytes(f[3][4:8], "big") for f in c.frames):
+            n0 = len(c.frames)
+            c.send(e2e.h2_frame(6, 0, 0, b"livechck"))
+            c.pump(20.0, until=lambda f: any((x[0] == 6 and x[1] & 1 and x[3] == b"livechck") or x[0] == 7 for x in f[n0:]))
+            stalled = not c.closed and not any((x[0] == 6 and x[1] & 1 and x[3] == b"livechck") or x[0] == 7
+                                               for x in c.frames[n0:])
     finally:
         c.close()
     # decode with one HPACK context over the whole connection (dynamic table state!)
@@ -905,6 +921,9 @@ def run_scenario(port, line, expect, seed):
     except Exception as ex:       # undecodable response header block
         return None, "response header block does not decode: %s" % ex, frame_steps
     verdict = monitor(sent_steps, frame_steps) or client_oracle(sent_steps, canon, None if c.closed else False)
+    if not verdict and stalled:
+        verdict = ("the connection stops making progress: it stays open, but a PING sent after the scenario is not "
+                   "answered within 20 s")
     return canon, verdict, frame_steps
 
 
